@@ -309,11 +309,14 @@ qb_ipcs_shm_rb_open(struct qb_ipcs_connection *c,
 {
 	int32_t res = 0;
 
-	ow->u.shm.rb = qb_rb_open(rb_name,
-				  ow->max_msg_size,
-				  QB_RB_FLAG_CREATE |
-				  QB_RB_FLAG_SHARED_PROCESS,
-				  sizeof(int32_t));
+	/* never more permissive than the mode the application chose,
+	 * not even before qb_rb_chmod() below */
+	ow->u.shm.rb = qb_rb_open_2(rb_name,
+				    ow->max_msg_size,
+				    QB_RB_FLAG_CREATE |
+				    QB_RB_FLAG_SHARED_PROCESS,
+				    sizeof(int32_t), NULL,
+				    c->auth.mode & 0600);
 	if (ow->u.shm.rb == NULL) {
 		res = -errno;
 		qb_util_perror(LOG_ERR, "qb_rb_open:%s", rb_name);
